@@ -1,7 +1,13 @@
 SPEC = dict(
     property='C01',
     level='other',
-    level_text='Mixed. DEDUCTIVE: the multi-chain serializer is under contract against the recursive spec SER (text of the first k chains with '
+    level_text='Mixed. DEDUCTIVE: the single-chain WRITER is proved to write exactly the notation\'s layout -- _serialize_annotation_start: labile '
+               '{..}, static <..>, isotope <..>, unknown-position [..]?, N-terminal [..]- in this order, each group the concatenation of its '
+               'modifications\' own serialize(brackets, include_plus) and only when present; _serialize_annotation_middle: for every residue in order '
+               'the opening / closing brackets (and ? / modifications) of the intervals that start / end in front of it, the residue letter, its '
+               'modifications in [..], and after the last residue the closing brackets of the intervals ending there; _serialize_annotation_end: '
+               '-[..] C-terminal, /charge, [..] adducts, each only when present; serialize() = start + middle + end (concatenation folds over '
+               'the list of pieces, eleven loop invariants); the multi-chain serializer is under contract against the recursive spec SER (text of the first k chains with '
                'the link token the parser recognises: "//" for a cross-link, "+" otherwise): for chains joined by "+" every obligation is '
                'discharged (unbounded number of chains); for cross-links the loop-invariant obligation is refuted on the pinned tree and '
                'recorded as a known finding. BOUNDED (labelled): chains generated from descriptions (4 residue strings incl. all 26 letters x '
@@ -9,13 +15,14 @@ SPEC = dict(
                'and //): parse(text) == the description, serialize -> parse gives an EQUAL annotation and re-serializes to itself, for '
                'include_plus in {False, True}. A whole-grammar inductive proof that the recursive-descent parser inverts the serializer is '
                'outside SMT string reasoning (DESIGN section 6, C01).',
-    level_note='single-chain serializer and the parser phases are bounded only; ProFormaAnnotation.serialize assumed pure in the multi-chain proof.',
+    level_note='that the parser INVERTS this layout (the round trip) is bounded only; Mod.serialize (one modification in its brackets) is an abstract method of the opaque item; ProFormaAnnotation.serialize enters the multi-chain proof as a pure function.',
     design_ref='DESIGN.md section 6, C01',
-    contracts=['multi'],
+    contracts=['multi', 'serial'],
     bounded=[dict(name='C01-bounded', script='bounded/C01.py')],
     replay_finder='bounded/C01.py',
     explanation='string obligations for the chain-link tokens + grammar-directed bounded round trip',
-    proved_clauses=['multi-chain serializer writes "+" between chains and nothing after the last chain (all obligations, unbounded)'],
+    proved_clauses=['single-chain writer: field order, brackets, interval placement, residue modifications, charge / adducts exactly as the notation lays them out (unbounded)',
+                    'multi-chain serializer writes "+" between chains and nothing after the last chain (all obligations, unbounded)'],
     bounded_clauses=['parse yields exactly the described residues / modifications / intervals / charge / adducts / links', 'serialize-parse-serialize fixed point and equality', 'include_plus'],
-    uncovered_clauses=[], assumptions=['str as SMT strings'], trusted_base=['z3 5.1', 'cvc5 1.0.3', 'pyvc'],
+    uncovered_clauses=[], assumptions=['str as SMT strings', 'LC-NUMTEXT (text of the charge)', 'A-FOLD concatenation folds SJ / ISER / IVT / IVC / MID'], trusted_base=['z3 5.1', 'cvc5 1.0.3', 'pyvc'],
 )
